@@ -38,12 +38,14 @@ CHECKS['C01'] = dict(
          'constraints the lowering passes rely on (pipeline_order_sound); (2) the break, continue and return canonicalisation passes '
          '(incl. ConditionalReturnRewriter) are modelled as executable Gallina (the actual guard-placement state machines) and proved '
          'semantics-preserving for all programs of a lowering language with opaque user atoms -- if / while / for / break / continue / '
-         'return / raise / with / try-except-else-finally (exceptions from raise statements, handler dispatch by decision, finally clauses '
-         'that complete normally) -- all stores, all decision sequences, runs that complete, return or end in an exception '
+         'return / raise / with / try-except-else-finally (exceptions from raise statements and from user statements / return values that '
+         'raise while being evaluated, bare except clauses, handler dispatch by decision, finally clauses that complete normally) -- all stores, all decision sequences, runs that complete, return or end in an exception '
          '(break_lowering_correct, continue_lowering_correct, return_lowering_correct and their composition lowering_correct: mutual induction over a relational big-step '
          'semantics, linked to the fuelled interpreter); the models are tied to break_statements.py / continue_statements.py / '
          'return_statements.py on every run by structural comparison of their outputs on the real passes\' inputs (~330 generated '
-         'programs). Proving the try/else case exposed a defect in the first repair of /repo, since corrected. '
+         'programs), the side conditions of the composition theorem are proved to follow from a condition on the source program alone '
+         '(lowering_correct_source), and the semantics of the lowering language itself is validated against CPython on every run (event '
+         'log, decisions incl. handler dispatch and the way the call ends, ~1000 runs). Proving the try/else case exposed a defect in the first repair of /repo, since corrected. '
          'The end-to-end claim (13 passes + loader) is validated, not proved: a differential oracle runs original vs '
          'malt.to_graph(original) on seeded generated programs x decision vectors x option sets (recursive on/off, feature sets) and '
          'compares return value, ordered external-call log, exception type, mutated arguments and module globals.',
